@@ -110,6 +110,17 @@ def ts_jobs(tier):
                     # the serving thread (and the releasing client) start inside the window
                     out.append((dict(base, name="c12-serve{0}-{1}-max{2}min{3}-op{4}-fresh".format(nreq, tasks[0], mx, mn, k),
                                      hold=[1, 2]), full))
+        # (2b) an in-flight request completes while server_close() is inside pool.stop(): the window
+        #      starts when every worker has gone (the busy one never consumed its stop marker)
+        reqs = "if not shutdown_request:\n    " + handle.format(k=0).replace("\n", "\n    ").rstrip(" ")
+        serve = SERVE.format(requests=reqs)
+        closer = ["start", "raw:" + SHUTDOWN, "raw:" + close]
+        clients = [closer, ["raw:" + serve], ["raw:GATE2.wait(None)\n", "open0"]]
+        closer2 = ["start", "raw:" + SHUTDOWN, "raw:GATE2.set()\n" + close]
+        base = {"max": mx, "min": mn, "tasks": ["gate0"], "clients": [closer2, ["raw:" + serve], ["raw:GATE2.wait(None)\n", "open0"]],
+                "gates": 4, "W": mx + 1, "props": ["nodeadlock", "socket", "stopped_clean", "exactly_once"], "window_at": 2,
+                "prefix": [("rr_cond", "workers_gone_while_stopping", [0, 1, 2] + list(range(3, 3 + mx + 1)))]}
+        out.append((dict(base, name="c12-close-inflight-tail-max{0}min{1}".format(mx, mn)), dict(full, depth=full["depth"] + 2)))
         # (3) a backlog: request 0 blocks its worker, request 1 waits in the queue; the closing client
         #     waits for request 1's completion (it opens gate 2) before shutting the server down
         reqs = "".join("if not shutdown_request:\n    " + handle.format(k=k).replace("\n", "\n    ").rstrip(" ") for k in range(2))
